@@ -5,7 +5,8 @@ CONSTANTS
   NDown = 2
   MaxFaults = 2
   MaxDrops = 1
+  MaxStalls = 1
 SPECIFICATION FairSpec
 INVARIANTS TypeOK PrefixDelivered OnlyOwnSegments OneAcceptPerSession OneCurrent NeverDead
-PROPERTIES EventuallyDelivered
+PROPERTIES NoLossBeforeFraming EventuallyDelivered
 CHECK_DEADLOCK FALSE
